@@ -486,6 +486,15 @@ class FactoryOracle:
         sh = self.mon.shadow(store)
         return sh.free()
 
+    def _free_live(self, edge):
+        """free space not counting granted space reservations whose owner process has ended (orphans)"""
+        store = getattr(edge, "inbuiltstore", None)
+        if store is None:
+            store = edge.belt
+        sh = self.mon.shadow(store)
+        live = sum(1 for r in sh.grant["put"] if r.owner is None or r.owner.is_alive)
+        return sh.cap - len(sh.held) - live
+
     def _admits(self, edge):
         store = getattr(edge, "inbuiltstore", None)
         if store is None:
@@ -884,9 +893,13 @@ class FactoryOracle:
                         if hasattr(e, "belt"):
                             continue
                         mon.counters["c10_out_checks"] += 1
-                        if self._free(e) > 0:
+                        if self._free_live(e) > 0:
+                            orphan = self._free(e) <= 0
                             self._suspect(("out", L.id, u.k, i), now, "C10", "finished_item_not_pushed",
-                                          f"{L.type}:finished-unit-held-although-permitted-out-edge-has-room",
+                                          f"{L.type}:finished-unit-held-although-permitted-out-edge-has-room" + (":slot-held-by-orphan-reservation" if orphan else ""),
+                                          {"node": L.id, "unit": getattr(u.x, "id", None), "edge": e.id, "t_off": u.t_off})
+                            self._suspect(("out8", L.id, u.k, i), now, "C08", "left_late_despite_room",
+                                          f"{L.type}:unit-stays-after-its-delay-although-a-permitted-out-edge-can-accept-it" + (":slot-held-by-orphan-reservation" if orphan else ""),
                                           {"node": L.id, "unit": getattr(u.x, "id", None), "edge": e.id, "t_off": u.t_off})
             if blocking and L.type == "source":
                 st = L.cur_src_item
@@ -950,7 +963,7 @@ class FactoryOracle:
             co.finish(now)
         crashed = exc is not None
         self.crashed = crashed
-        if crashed:
+        if crashed or getattr(self, "injected", False):
             return
         for L in self.ledgers.values():
             self._finish_policies(L)
